@@ -193,6 +193,7 @@ class Flow:
         self._if_tests: dict = {}
         self._loop_stored: list = []
         self.consts = consts or {}
+        self.records = getattr(func, "_sa_records", None) or {}
         self.acc = self._find_acc(func)
         a = func.args
         allargs = a.posonlyargs + a.args + a.kwonlyargs
@@ -272,7 +273,27 @@ class Flow:
         return self.lookup(n.id)
 
     def e_Attribute(self, n):
-        return ("attr", self.ev(n.value), n.attr)
+        base = self.ev(n.value)
+        r = self._record_field(base, n.attr)
+        return r if r is not None else ("attr", base, n.attr)
+
+    def _record_field(self, base, field):
+        """`R(a, b).f` with R a record type of the module (typing.NamedTuple / collections.namedtuple, see core._Canon._records) is the
+        argument bound to field f -- also when the record reaches this point as the element of a list of such records"""
+        recs = self.records
+        if not recs or not isinstance(base, tuple) or base[0] not in ("call", "elem", "bv", "sub", "item", "phi"):
+            return None
+        b = base if base[0] == "call" else simp(base)
+        if b[0] == "call" and b[1][0] == "global" and b[1][1] in recs and field in recs[b[1][1]] and b[1][1] not in self.env:
+            fields = recs[b[1][1]]
+            args, kws = b[2], dict(b[3])
+            if any(isinstance(a, tuple) and a and a[0] == "star" for a in args) or "**" in kws or len(args) > len(fields):
+                return None
+            i = fields.index(field)
+            if i < len(args):
+                return args[i]
+            return kws.get(field)
+        return None
 
     def e_JoinedStr(self, n):
         parts = []
